@@ -28,6 +28,10 @@ class Prop:
     thorough_budget_s = 600
     # shared session fuzzer (harness/fuzz.py): observation kinds of the timed model that matter to this
     # property (None = the property is not about the timed sessions), and whether their times do
+    # command-line cases (harness/props/cmdline.py): the fields of what `main(argv)` builds that this property
+    # is about; None = the property has no stake in the command line
+    cli_fields = None
+    cli_n = (150, 2000)
     fuzz_kinds = None
     fuzz_times = True
     fuzz_n = (100, 1500)
@@ -40,6 +44,8 @@ class Prop:
             return set(self.generated_deps)
         n = int(self.id[1:])
         d = {"Constants.lean"}
+        if self.cli_fields is not None:
+            d.add("CliDefaults.lean")
         if 6 <= n <= 17 or n == 19:
             d.add("Arith.lean")
         if n == 18:
@@ -207,6 +213,11 @@ def run_check(prop, tier, seed, replay=None):
             if time.time() > deadline:
                 notes.append("case generation stopped at time budget")
                 break
+        if prop.cli_fields is not None:
+            from harness.props import cmdline
+            crng = random.Random(seed * 6151 + int(prop.id[1:]) * 15485863 + 5)
+            for _ in range(prop.cli_n[0] if tier == "quick" else prop.cli_n[1]):
+                reqs.append(cmdline.make_request(crng))
         if prop.fuzz_kinds is not None:
             from harness import fuzz
             frng = random.Random(seed * 7919 + int(prop.id[1:]) * 104729 + 17)
@@ -224,6 +235,9 @@ def run_check(prop, tier, seed, replay=None):
         if isinstance(r, dict) and r.get("fuzz"):
             from harness import fuzz
             return fuzz.handler_for(prop)
+        if isinstance(r, dict) and r.get("k") == "cli" and prop.cli_fields is not None:
+            from harness.props import cmdline
+            return cmdline.handler_for(prop)
         return prop
     for r in reqs:
         impl_replies.append(safe_impl(handler(r), r))
